@@ -4,10 +4,13 @@ from vlib import tlc, tlaval, gorun, core
 
 PROPS = ['C20']
 INSTR = {"files": {"stream.go": {"funcs": ["Stream.fillDataToReadBuffer", "Stream.Close", "Stream.close", "Stream.halfClose",
-                                           "Stream.getStreamState"], "noLock": []}}}
+                                           "Stream.getStreamState"], "noLock": []},
+                   # observation hook only: payload of every recycled buffer is overwritten by the harness
+                   "buffer_manager.go": {"entry": ["bufferList.push"]}}}
 # finer instrumentation for the random real interleavings: the lock of pendingData is a scheduling point too, so that
 # "flag read / data added" orderings inside fillDataToReadBuffer and the goroutine's exit re-check can be separated
-INSTR_FINE = {"files": {"stream.go": {"funcs": INSTR["files"]["stream.go"]["funcs"] + ["pendingData.add", "pendingData.moveTo", "pendingData.clear"]}}}
+INSTR_FINE = {"files": {"stream.go": {"funcs": INSTR["files"]["stream.go"]["funcs"] + ["pendingData.add", "pendingData.moveTo", "pendingData.clear"]},
+                        "buffer_manager.go": INSTR["files"]["buffer_manager.go"]}}
 HARNESS = ['zz_vs_sched.go', 'zz_freelist_test.go', 'zz_pair_test.go', 'zz_session_test.go', 'zz_callback_test.go']
 SLUGS = ['peer-close-before-offer', 'close-during-callback']
 INVS = 'Serial NoDupOffer OrderOffer NoStranding PeerLearns CallbackOnce'
